@@ -257,6 +257,10 @@ func (o *OvsdbServer) Monitor(client *rpc2.Client, args []json.RawMessage, reply
 
 	tableUpdates := make(ovsdb.TableUpdates)
 	for t, request := range request {
+		if request != nil && request.Select != nil && !request.Select.Initial() {
+			// initial contents not requested
+			continue
+		}
 		op := ovsdb.Operation{Op: ovsdb.OperationSelect, Table: t, Columns: request.Columns}
 		result, _ := transaction.Transact(op)
 		if len(result) == 0 || len(result[0].Rows) == 0 {
@@ -303,6 +307,10 @@ func (o *OvsdbServer) MonitorCond(client *rpc2.Client, args []json.RawMessage, r
 
 	tableUpdates := make(ovsdb.TableUpdates2)
 	for t, request := range request {
+		if request != nil && request.Select != nil && !request.Select.Initial() {
+			// initial contents not requested
+			continue
+		}
 		op := ovsdb.Operation{Op: ovsdb.OperationSelect, Table: t, Columns: request.Columns}
 		result, _ := transaction.Transact(op)
 		if len(result) == 0 || len(result[0].Rows) == 0 {
@@ -349,6 +357,10 @@ func (o *OvsdbServer) MonitorCondSince(client *rpc2.Client, args []json.RawMessa
 
 	tableUpdates := make(ovsdb.TableUpdates2)
 	for t, request := range request {
+		if request != nil && request.Select != nil && !request.Select.Initial() {
+			// initial contents not requested
+			continue
+		}
 		op := ovsdb.Operation{Op: ovsdb.OperationSelect, Table: t, Columns: request.Columns}
 		result, _ := transaction.Transact(op)
 		if len(result) == 0 || len(result[0].Rows) == 0 {
